@@ -123,6 +123,8 @@ OVERLAYS = {
     "snaps_clean_test.go": ("snaps", "zz_verif_clean_test.go"),
     "snaps_c11_test.go": ("snaps", "zz_verif_c11_test.go"),
     "snaps_helper_nontest.go": ("snaps", "zz_verif_helper_nontest.go"),
+    "snaps_sched_nontest.go": ("snaps", "zz_verif_sched_nontest.go"),
+    "snaps_sched_test.go": ("snaps", "zz_verif_sched_test.go"),
 }
 
 
@@ -130,8 +132,18 @@ def register_overlay(fname, pkgdir, injected):
     OVERLAYS[fname] = (pkgdir, injected)
 
 
-def build_go(tag):
-    """Builds the white-box harness test binary for ./snaps from REPO's current working tree."""
+def build_yieldgen():
+    with Lock("yieldgen"):
+        binp = os.path.join(BUILD, "yieldgen")
+        src = os.path.join(VERIF, "harness", "yieldgen", "main.go")
+        if not os.path.exists(binp) or os.path.getmtime(binp) < os.path.getmtime(src):
+            run(["go", "build", "-o", binp, "."], cwd=os.path.join(VERIF, "harness", "yieldgen"), env=GOENV)
+        return binp
+
+
+def build_go(tag, instrument=False, race=False):
+    """Builds the white-box harness test binary for ./snaps from REPO's current working tree.
+    instrument=True: the library sources are replaced (overlay) by yield-instrumented copies."""
     out_dir = os.path.join(BUILD, "go", tag + BUILD_TAG)
     os.makedirs(out_dir, exist_ok=True)
     wb = os.path.join(VERIF, "harness", "whitebox")
@@ -140,13 +152,24 @@ def build_go(tag):
         if f in OVERLAYS:
             pkgdir, injected = OVERLAYS[f]
             repl[os.path.join(REPO, pkgdir, injected)] = os.path.join(wb, f)
+    if instrument:
+        yg = build_yieldgen()
+        inst = os.path.join(out_dir, "instrumented")
+        shutil.rmtree(inst, ignore_errors=True)
+        p = run([yg, os.path.join(REPO, "snaps"), inst], check=False)
+        if p.returncode != 0:
+            raise BuildError("yieldgen failed:\n" + p.stdout[-3000:])
+        for line in p.stdout.splitlines():
+            if "\t" in line:
+                orig, new = line.split("\t")
+                repl[orig] = new
     ov = os.path.join(out_dir, "overlay.json")
     with open(ov, "w") as fh:
         json.dump({"Replace": repl}, fh)
     bins = {}
     for pkg in sorted(set(p for p, _ in OVERLAYS.values())):
         binp = os.path.join(out_dir, pkg.replace("/", "_") + ".test")
-        p = run(["go", "test", "-c", "-tags", "verif", "-overlay", ov, "-vet=off", "-o", binp, "./" + pkg],
+        p = run(["go", "test", "-c", "-tags", "verif", "-overlay", ov, "-vet=off"] + (["-race"] if race else []) + ["-o", binp, "./" + pkg],
                 cwd=REPO, env=GOENV, check=False, timeout=900)
         if p.returncode != 0:
             raise BuildError("go harness build failed for ./%s:\n%s" % (pkg, p.stdout[-4000:]))
